@@ -22,7 +22,6 @@ Oracle (clause numbers of DESIGN.md §C19):
      such a literal).
 Signatures: C19/<library function that issued the statement>/<clause>.
 """
-import atexit
 import json
 import os
 import shutil
@@ -119,15 +118,10 @@ def graphml(gid):
     return _GRAPHML % {"gid": _xml_escape(gid)}
 
 
-_SCRATCH = []
-
-
 def _scratch_dir():
-    if not _SCRATCH:
-        d = tempfile.mkdtemp(prefix="c19-")
-        _SCRATCH.append(d)
-        atexit.register(shutil.rmtree, d, True)
-    return _SCRATCH[0]
+    """per-process scratch directory for the importer's GraphML hand-over files; created at the start and removed
+    at the end of every run (pool workers are terminated without atexit, so nothing may be left behind)"""
+    return os.path.join(tempfile.gettempdir(), f"c19-scratch-{os.getpid()}")
 
 
 # ---------------------------------------------------------------------------------------------------------------
@@ -982,6 +976,7 @@ def _execute(o, I, V):
     npg.time = types.SimpleNamespace(sleep=lambda s: None, time=saved[2].time)
     r = _Run()
     r.exc = None
+    os.makedirs(_scratch_dir(), exist_ok=True)
     try:
         if o["name"] != "importer.init":
             E.imp                   # connect + index bootstrap are judged by the importer.init operation only
@@ -996,6 +991,7 @@ def _execute(o, I, V):
                 imp.driver = None   # keep Neo4jGraphImporter.__del__ quiet
     finally:
         npg.GraphDatabase, uuid.uuid4, npg.time = saved
+        shutil.rmtree(_scratch_dir(), ignore_errors=True)
     r.stmts = E.rec.statements
     r.vals = list(V)
     r.sent = list(o["sent"](I, list(V))) if o["sent"] else list(V)
